@@ -154,6 +154,18 @@ static void gen(long seed, int nrandom, int nops, int both)
 	}
 	static const int sizes[] = { 1, 3, 4, 7, 24, 1000, 4096 };   /* 32 x 4096 > 64 KiB: offsets beyond 16 bits */
 	drv_srand(seed);
+	/* long histories (several hundred claims) on depths that do not divide 256 */
+	static const int oddd[] = { 3, 5, 6, 7, 12, 31 };
+	for (int i = 0; i < 6; i++) {
+		reset(oddd[i], 4, 0, i & 1);
+		for (int k = 0; k < 700; k++) {
+			do_claim();
+			int j = first_claimed(0);
+			if (j) do_send(j);
+			if (k % 3 != 0 || nwin >= depth) { do_receive(); if (nwin && win[0].st == 2) do_release(); }
+			if (k % 50 == 0) do_empty();
+		}
+	}
 	for (int d = 1; d <= 32; d++)
 		for (int si = 0; si < 7; si++)
 			for (int sl = 0; sl < 3; sl++) {
